@@ -354,6 +354,12 @@ func runCtlScenario(w *ndWriter, seed int64, variant string, idx int) bool {
 			}
 		}
 		slowNow = 0
+		if (idx+int(seed/100000))%3 == 0 {
+			// an idle spell of the server: four streams in a row end without having carried an event (closed at
+			// once by a watch timeout, Watch() failing twice, closed again); each costs one reconnect delay, not more
+			srv.ScriptTail([]WatchAct{{CloseAfter: -1}, {ConnErr: true}, {ConnErr: true, ConnErrKind: 1}, {CloseAfter: -1}, {}})
+			srv.CloseIdleStreams()
+		}
 		// the server is quiet.  Every scripted fault that is still ahead costs one reconnect delay; once a stream that
 		// will not be cut is connected it replays what was missed and the cache must be current at once.
 		// the reconnect delay is one second: k faults still ahead cost k+1 reconnects (plus one for a stream cut just now)
